@@ -208,7 +208,7 @@ EXTRA = {
     'C01': ' Further structural clauses (DESIGN 3a): no C cipher routine reads through output-derived pointers in more places than the reference tree (O1); '
            'copies of one routine within a file agree (X5); field-by-field record copies are index/field consistent (X4); C functions named for a key size / '
            'direction call only routines of that key size / direction (K1). Element-insert ladders that assemble IV / nonce vectors keep the index/offset relation of their neighbours (N6); no computed vector value is stored twice unchanged to adjacent places (W6). job->src is used with its start offset (O2).',
-    'C02': ' Further clauses (DESIGN 3a): wrapper-constant matrix of the per-architecture hash entry points (X3), copy siblings (X5), field copies (X4). Insert ladders (N6); no computed vector value is stored twice unchanged to adjacent places - the second part of a split digest / tag store comes from another value (W6).',
+    'C02': ' Further clauses (DESIGN 3a): wrapper-constant matrix of the per-architecture hash entry points (X3), copy siblings (X5), field copies (X4). Insert ladders (N6); no computed vector value is stored twice unchanged to adjacent places - the second part of a split digest / tag store comes from another value (W6). Assembly padding: the length field goes into the block holding the 0x80 marker exactly when it fits behind it (P6).',
     'C03': ' Further clause (DESIGN 3a): key-size / direction tokens of C wrappers and manager slots agree with their callers (K1). Insert ladders of the CCM / GCM / ChaCha20-Poly1305 units (N6, decides the nonce byte placement of CCM block B0); split stores (W6).',
     'C04': ' Further clauses (DESIGN 3a): lane association in 262 assembled multi-buffer routines - a vector stored through the pointer of lane m holds data of '
            'lane m only, followed through the transposition networks (unpack / shuffle / insert / extract modelled exactly on 32-bit slots, everything else '
@@ -226,7 +226,7 @@ EXTRA = {
     'C11': ' Further clauses (DESIGN 3a): the 3GPP IV generators place BEARER / DIRECTION at the bit positions of the specifications and byte-swap COUNT / FRESH '
            'whole, the f9 / EIA3 generators XOR the direction bit (H7, a table of the specification\'s positions in the checker); key-size tokens of the GCM pre-computation wrappers (K1). Each IV generator defines every byte of its IV and copies the repeated half from the half the specification names (H8).',
     'C13': ' Further clauses (DESIGN 3a): every C function scrubs at least as many distinct locals of each type as on the reference tree and whole-array scrubs '
-           'cover the array (S11/S12); copies of one routine agree (X5).',
+           'cover the array (S11/S12); copies of one routine agree (X5). A flush routine wipes every lane place it copied key material into under a mask built from at least the same constructions as the copy mask (S13, lane-mask ladders of the x16 VAES managers).',
     'C14': ' Further clauses (DESIGN 3a): a job is stamped BEING_PROCESSED before the stage dispatch on every path (J8); each failure keeps the error code the '
            'reference tree gives it (J9, the guard catalogue of C12); assembly never overwrites job->status with a single stage bit (J2).',
     'C15': ' Further clauses (DESIGN 3a): no manager is reset twice and the variants of one architecture reset the same managers (I1); every architecture init '
